@@ -254,7 +254,13 @@ def run_real(kinds, inp, shared=False, off=()):
     barrier_idx = [i for i, k in enumerate(kinds) if k == "barrier" and i not in off]
     drained_barriers = [0]
 
+    in_cb = [False]
+
     def logged_drain():
+        if in_cb[0] or drained_barriers[0] >= len(barrier_idx):
+            # not the engine's drain after the last input event: whatever is released here is released by the
+            # callback (or by an extra drain) and is judged as such by the oracle
+            return orig_drain(bctx)
         i = barrier_idx[drained_barriers[0]]
         drained_barriers[0] += 1
         drains.append(i)
@@ -269,7 +275,13 @@ def run_real(kinds, inp, shared=False, off=()):
                 def b(event, context, i=i):
                     log.append((i, event["args"]["id"]))
                     guard(len(log))
-                    return ep.pipeline_barrier(event, context)
+                    in_cb[0] = True
+                    try:
+                        r = ep.pipeline_barrier(event, context)
+                    finally:
+                        in_cb[0] = False
+                    emis[i] += [e["args"]["id"] for e in r]
+                    return r
                 b.__name__ = "pipeline_barrier"
                 proc.register_stage(b, bctx)
             elif k in ("collect", "apply"):
@@ -402,6 +414,10 @@ def gen_cases(ctx: Ctx):
         if "collect" in kinds or "apply" in kinds:
             yield kinds, [ctx.rng.randint(1, 99) for _ in range(ctx.rng.randint(0, 12))], False
     ctx.extra["exhaustive_upto_len"] = L
+    # long streams: a barrier holds back however many events arrive (thousands, beyond any plausible buffer size)
+    for kinds, size in ((["pass", "barrier", "pass"], 4500), (["hold", "barrier", "pass", "barrier", "pass"], 5000),
+                        (["pass", "barrier", "delay"], 9000)):
+        yield kinds, list(range(1, size + 1)), False
     for _ in range(ctx.n(1500, 30000)):
         n = ctx.rng.randint(1, 12)
         kinds = [ctx.rng.choice(KINDS if ctx.rng.random() < 0.7 else ["pass", "dup", "hold", "barrier", "delay"]) for _ in range(n)]
